@@ -487,6 +487,29 @@ class SGen:
         n = n or self.r.randint(2, 5)
         return self.block({}, 0, False, n)
 
+    def focused(self, kinds):
+        """a short program made only of the named constructs (no filler statements): used first by the quick
+        tier, where reading a program is expensive"""
+        out = []
+        for k in kinds:
+            if k == "select":
+                out.append(self.select({}, 2, False))
+            elif k == "where1":
+                out.append(self.where_red({}) if "reduction" in self.defects else self.where1({}))
+            elif k == "where2":
+                out.append(self.where2({}))
+            elif k == "loop":
+                out.append(self.loop({}, 1))
+            elif k == "aassign":
+                out.append(self.aassign({}))
+            elif k == "elif":
+                out.append(("elif", [(self.cond({}), [self.assign({})]) for _ in range(2)], [self.assign({})]))
+            elif k == "ifs":
+                out.append(("ifs", self.cond({}), self.assign({})))
+            else:
+                raise ValueError(k)
+        return out
+
     # ------------------------------------------------------------------ module procedures
     def make_procs(self):
         r = self.r
